@@ -354,6 +354,10 @@ func firstByte(b []byte) int {
 func hashOps(ops []Op) uint64 {
 	h := uint64(1)
 	for _, o := range ops {
+		for _, x := range o.L {
+			h = hash64(h, uint64(x))
+		}
+		h = hash64(h, uint64(o.At), uint64(o.D), hashStr(o.S2))
 		h = hash64(h, hashStr(o.Kind), uint64(o.A), uint64(o.B), hashStr(o.S), uint64(o.Node), uint64(o.C), uint64(len(o.L)), hashStr(string(o.Buf)))
 	}
 	return h
